@@ -359,6 +359,15 @@ Goal forall (uc : unicode) (cfg : sc_config) (pd : parsed) (text : str),
                     (List.length (p_aliases pd) + List.length (p_structs pd) + List.length (p_enums pd) <= n)%nat.
 Proof. exact Props.C10.C10_grammar_scala. Qed.
 Print Assumptions Props.C10.C10_grammar_scala.
+Goal forall (uc : unicode) (cfg : sc_config) (pd : parsed) (text : str),
+    Proofs.C10_SC.c10_sc_cfg_ok cfg = true -> Proofs.C10_SCGrammarFile.c10_scg_cfg_ok cfg -> dom_C10 CSC pd = true ->
+    known_C10 CSC (sc_package cfg) pd = [] -> known_C10_sc_grammar (sc_package cfg) pd = [] ->
+    Proofs.C10_SCGrammarFile.c10_scg_overrides_ok pd ->
+    sc_generate uc cfg pd = Ok text ->
+    exists n : nat, c10_sc_recognise text = Some n /\
+                    (List.length (p_aliases pd) + List.length (p_structs pd) + List.length (p_enums pd) <= n)%nat.
+Proof. exact Props.C10.C10_grammar_scala_classes. Qed.
+Print Assumptions Props.C10.C10_grammar_scala_classes.
 Goal Proofs.C10_SC.c10_sc_cfg_ok Proofs.C10_SCGrammarFile.g_cfg = true /\ Proofs.C10_SCGrammarFile.c10_scg_cfg_ok Proofs.C10_SCGrammarFile.g_cfg /\
   dom_C10 CSC Proofs.C10_SCGrammarFile.g_prog = true /\ Proofs.C10_SCGrammarFile.c10_scg_dom Proofs.C10_SCGrammarFile.g_prog /\
   Proofs.C10_SCGrammarFile.c10_scg_toplevel_ok Proofs.C10_SCGrammarFile.g_cfg Proofs.C10_SCGrammarFile.g_prog /\
@@ -393,6 +402,14 @@ Goal exists text, Proofs.C10_SC.c10_sc_cfg_ok Proofs.C10_SCGrammarFile.t_cfg = t
     contains_sub (lit "package") text = false /\ good_C10_lex CSC text = true /\ c10_sc_recognise text = None.
 Proof. exact Props.C10.C10_scala_toplevel_alias_refuted. Qed.
 Print Assumptions Props.C10.C10_scala_toplevel_alias_refuted.
+Goal exists text, dom_C10 CSC Proofs.C10_SCGrammarFile.c_prog = true /\
+    known_C10 CSC (sc_package Proofs.C10_SCGrammarFile.g_cfg) Proofs.C10_SCGrammarFile.c_prog = [] /\
+    known_C10_sc_grammar (sc_package Proofs.C10_SCGrammarFile.g_cfg) Proofs.C10_SCGrammarFile.c_prog = ["C10-scala-content-key"%string] /\
+    sc_generate uc_exec Proofs.C10_SCGrammarFile.g_cfg Proofs.C10_SCGrammarFile.c_prog = Ok text /\
+    contains_sub (lit "case class A(my-content: String) extends E {") text = true /\
+    good_C10_lex CSC text = true /\ c10_sc_recognise text = None.
+Proof. exact Props.C10.C10_scala_content_key_refuted. Qed.
+Print Assumptions Props.C10.C10_scala_content_key_refuted.
 Goal exists text, dom_C10 CSC Proofs.C10_SCGrammarFile.d_prog = true /\
     known_C10 CSC (sc_package Proofs.C10_SCGrammarFile.g_cfg) Proofs.C10_SCGrammarFile.d_prog = ["C10-scala-default"%string] /\
     known_C10_sc_grammar (sc_package Proofs.C10_SCGrammarFile.g_cfg) Proofs.C10_SCGrammarFile.d_prog = [] /\
